@@ -319,6 +319,9 @@ def nelua_build(src, out, extra=(), cache_dir=None, timeout=900, interp=None):
 # Coq
 # --------------------------------------------------------------------------
 
+_SYNCED = set()
+
+
 def _repo_suffix():
     return "" if REPO == "/repo" else "@" + hashlib.sha1(os.path.abspath(REPO).encode()).hexdigest()[:10]
 
@@ -336,7 +339,24 @@ def coq_dir(pid):
     root = coq_root()
     d = os.path.join(root, pid)
     live = os.path.join(VERIF, "coq")
+    if root != live and os.path.isdir(d) and (root, pid) not in _SYNCED:
+        # a private copy left by an earlier run against the same scratch path: refresh its sources
+        _SYNCED.add((root, pid))
+        with Lock("coqcopy" + _repo_suffix()):
+            for sub in ("Base", pid):
+                srcd, dstd = os.path.join(live, sub), os.path.join(root, sub)
+                if not os.path.isdir(dstd):
+                    continue
+                for f in os.listdir(srcd):
+                    if (f.endswith((".v", ".ml", ".mli")) or f == "_CoqProject") and not f.startswith(("Gen", "model", "zutil", "_Eval_")):
+                        a, b = os.path.join(srcd, f), os.path.join(dstd, f)
+                        try:
+                            if not os.path.exists(b) or open(a, "rb").read() != open(b, "rb").read():
+                                shutil.copy(a, b)
+                        except OSError:
+                            pass
     if root != live and not os.path.isdir(d):
+        _SYNCED.add((root, pid))
         with Lock("coqcopy" + _repo_suffix()):
             for sub in ("Base", pid):
                 dst = os.path.join(root, sub)
